@@ -47,6 +47,14 @@ const (
 	// shapes of the run (quick tier).
 	L2MinDistinct  = 8
 	L2ChildTimeout = 200 * time.Second
+
+	// Family l2-stale-rewind: its scenarios come after the l2-persist ones in
+	// the tier's list and are planned under the indices l2StaleBase+j; the
+	// first l2StaleFixed do not depend on the run's seed.
+	L2StaleQuick    = 4
+	L2StaleThorough = 40
+	l2StaleBase     = 100_000
+	l2StaleFixed    = 1
 )
 
 // L2 families: the phase of the rescan the chain changes are aimed at.
@@ -55,6 +63,7 @@ const (
 	L2Catchup = "l2-catchup" // walking by height; parked inside a connected callback
 	L2Retry   = "l2-retry"   // peers drop getcfilters / getdata: work-manager retry, retry queue, re-walk
 	L2Update  = "l2-update"  // AddAddrs / AddInputs / Rewind at chosen moments of both phases
+	L2Stale   = "l2-stale-rewind" // Update+Rewind offered while the caller's block is off the client's best chain
 )
 
 const l2Rule = " || L2: scenario k of seed s (one child process each) is a pure function plan(s,k): an l2.World with a chaingen chain of 80-400 " +
@@ -65,7 +74,10 @@ const l2Rule = " || L2: scenario k of seed s (one child process each) is a pure 
 	"A script of steps fires at the k-th connected callback (optionally PARKING the rescan goroutine inside that callback while the step runs " +
 	"and the client adopts it): growth, reorganisations of depth 1-6 to a longer branch (also twice in a row and right back to the old branch), " +
 	"Update(AddAddrs/AddInputs/Rewind, with and without DisableDisconnectedNtfns) settled, racing or while parked. Families: l2-current, " +
-	"l2-catchup, l2-retry, l2-update. End: every update returned, one fresh block, wait until the last connected callback names it and the client " +
+	"l2-catchup, l2-retry, l2-update, and l2-stale-rewind (after the l2-persist scenarios; the first one does not depend on the seed): the rescan is " +
+	"parked inside a connected callback in the middle of its walk by height (or, following notifications, in the callback of a fresh block), " +
+	"the peers reorganise from a fork point f at least two blocks below the caller's block and the client adopts the new branch, " +
+	"Update(Rewind(h)[, DisableDisconnectedNtfns(true)]) with f < h < caller's height is on offer on the update channel when the callback returns. End: every update returned, one fresh block, wait until the last connected callback names it and the client " +
 	"reports it (or the rescan terminated), then Walk judges the log. L2 fingerprint = (family, start/start-time/end, parked, deepest fork " +
 	"relative to the caller's position + depth bucket, drop kinds that fired, strongest update kind@timing, rescan termination kind). " +
 	"L2 non-trivial = at least 3 block callbacks and at least one reorg, update, dropped request or park. Counters prefixed l2_."
@@ -88,7 +100,7 @@ func L2Run(r *evid.Run) {
 	L2Describe(r)
 	// The scenarios of this file first, then the l2-persist family
 	// (l2persist.go); L2Dispatch maps an index to its family.
-	n := r.Pick(L2QuickScenarios, L2ThoroughScenarios) + r.Pick(L2PersistQuick, L2PersistThorough)
+	n := r.Pick(L2QuickScenarios, L2ThoroughScenarios) + r.Pick(L2PersistQuick, L2PersistThorough) + r.Pick(L2StaleQuick, L2StaleThorough)
 	var mu sync.Mutex
 	var samples []any
 	exits := map[string]int{}
@@ -253,7 +265,12 @@ func (pl *l2Plan) chainChange(adopt bool) []l2Op {
 // options and the script. Everything (including every block revealed later) is
 // generated here, before the client exists.
 func l2MakePlan(seed int64, k int) *l2Plan {
-	rng := rand.New(rand.NewSource(seed*1_000_003 + int64(k)*7919 + 909))
+	src, wseed := seed*1_000_003+int64(k)*7919+909, seed*1_000_003+int64(k)+900_000
+	stale := k >= l2StaleBase
+	if stale && k-l2StaleBase < l2StaleFixed {
+		src, wseed = 0x5ca1e09+int64(k), 0x5ca1e0900+int64(k) // seed-independent
+	}
+	rng := rand.New(rand.NewSource(src))
 	pl := &l2Plan{Seed: seed, K: k, rng: rng}
 	switch k % 8 {
 	case 0, 4:
@@ -274,6 +291,10 @@ func l2MakePlan(seed int64, k int) *l2Plan {
 		pl.Ntfn = "both"
 	}
 	pl.DropPeers = "none"
+	if stale {
+		pl.Family, pl.ChainLen, pl.Slow = L2Stale, 80+rng.Intn(60), false
+		pl.Fixed = k-l2StaleBase < l2StaleFixed
+	}
 	if k == 0 {
 		// Fixed scenario: two peers, a rescan from mid-chain that becomes
 		// current, then growth, a 2-deep reorganisation and an address
@@ -286,7 +307,7 @@ func l2MakePlan(seed int64, k int) *l2Plan {
 	if span < 2*time.Hour {
 		span = 2 * time.Hour
 	}
-	w := l2.NewWorld(l2.Config{Seed: seed*1_000_003 + int64(k) + 900_000, Preset: chaingen.PresetNoRetarget, SpacingSec: 4, GenesisAgo: span})
+	w := l2.NewWorld(l2.Config{Seed: wseed, Preset: chaingen.PresetNoRetarget, SpacingSec: 4, GenesisAgo: span})
 	pl.w = w
 	g := w.G
 	pl.trunk = g.Extend(g.Genesis, pl.ChainLen, chaingen.PaceNormal)
@@ -301,10 +322,12 @@ func l2MakePlan(seed int64, k int) *l2Plan {
 		pl.StartKind = []string{"tip", "tip", "mid", "genesis"}[rng.Intn(4)]
 	case L2Catchup:
 		pl.StartKind = []string{"genesis", "mid", "mid"}[rng.Intn(3)]
+	case L2Stale:
+		pl.StartKind = "near-tip"
 	default:
 		pl.StartKind = []string{"genesis", "mid", "tip"}[rng.Intn(3)]
 	}
-	if pl.Fixed {
+	if pl.Fixed && !stale {
 		pl.StartKind = "mid"
 	}
 	switch pl.StartKind {
@@ -312,6 +335,8 @@ func l2MakePlan(seed int64, k int) *l2Plan {
 		pl.start = g.Genesis
 	case "tip":
 		pl.start = tip0
+	case "near-tip":
+		pl.start = at(tip0.Height - int32(12+rng.Intn(20)))
 	default:
 		lo := int32(pl.ChainLen / 3)
 		hi := tip0.Height - 12
@@ -360,6 +385,8 @@ func l2MakePlan(seed int64, k int) *l2Plan {
 		pl.planRetry(behind)
 	case L2Update:
 		pl.planUpdate(behind)
+	case L2Stale:
+		pl.planStale(behind)
 	}
 	if pl.EndKind == "none" {
 		pl.final = g.Extend(pl.tip, 1, chaingen.PaceNormal)[0]
@@ -550,6 +577,55 @@ func (pl *l2Plan) planUpdate(behind int) {
 	pl.step(0, false, pl.settle())
 }
 
+// planStale: the caller holds a block at height c; the peers reorganise from
+// fork point f <= c-2 and the client adopts the new branch while the rescan
+// goroutine is parked inside the connected callback of that block; an Update
+// with Rewind(h), f < h < c, is on offer when the callback returns.
+func (pl *l2Plan) planStale(behind int) {
+	rng := pl.rng
+	mode := "catchup"
+	if !pl.Fixed && rng.Intn(2) == 0 {
+		mode = "current"
+	}
+	silent := pl.Fixed || rng.Intn(4) != 0
+	kind := []string{"rewind", "addrs+rewind", "addrs+rewind", "inputs+rewind"}[rng.Intn(4)]
+	upd := func(f, h int) l2Op {
+		o := pl.p.staleUpdate(kind, uint32(h), silent, pl.tip.Ancestor(int32(f)), false, "parked")
+		return l2Op{Kind: "update", Upd: o.Upd, Desc: o.String()}
+	}
+	offered := l2Op{Kind: "await-update-offered", Desc: "await-update-offered"}
+	switch mode {
+	case "catchup":
+		r := 2 + rng.Intn(5) // parked r blocks below the synced tip
+		if r > behind-4 {
+			r = behind - 4
+		}
+		at := behind - r
+		c := int(pl.start.Height) + at
+		f := c - 2 - rng.Intn(4)
+		if f <= int(pl.start.Height) {
+			f = int(pl.start.Height) + 1
+		}
+		h := f + 1 + rng.Intn(c-1-f)
+		u := upd(f, h)
+		pl.say("mode=catchup caller=%d fork=%d rewind=%d silent=%v", c, f, h, silent)
+		pl.step(at, true, pl.reorg(int(pl.tip.Height)-f, true), u, offered)
+	default:
+		pl.step(behind, false, pl.settle())
+		prov := pl.w.G.Extend(pl.tip, 1, chaingen.PaceNormal)[0]
+		pl.tip = prov
+		c := int(prov.Height)
+		d := 2 + rng.Intn(5)
+		f := c - d
+		h := f + 1 + rng.Intn(d-1)
+		u := upd(f, h)
+		pl.say("mode=current caller=%d fork=%d rewind=%d silent=%v", c, f, h, silent)
+		s := pl.step(0, true, pl.reorg(d, true), u, offered)
+		s.Provoke = prov
+	}
+	pl.step(0, false, pl.settle())
+}
+
 // ---------------------------------------------------------------------------
 // Droppers: peers that stay silent on chosen requests a few times.
 
@@ -666,6 +742,9 @@ type l2Run struct {
 	relCount map[string]int
 	updKinds map[string]bool
 	dirty    bool
+
+	staleSent  int // l2-stale-rewind: updates sent while the caller's block was off the client's best chain
+	staleShape int // ... with fork < rewind height < caller's height
 }
 
 func (x *l2Run) tracef(format string, a ...any) {
@@ -1053,12 +1132,27 @@ func (x *l2Run) runOp(o l2Op) {
 			k += "(silent)"
 		}
 		x.updKinds[k+"@"+timing] = true
+		if x.pl.Family == L2Stale {
+			x.noteStale(u)
+		}
 		x.pending.Add(1)
 		x.updCh <- u
 		x.tracef("%s%s", o.Desc, x.where())
 		if o.Wait && !x.isParked {
 			x.waitUpdates(30 * time.Second)
 		}
+	case "await-update-offered":
+		// Pacing: the Update call sits in Update's select, so the update is
+		// on offer before the parked callback returns.
+		deadline := time.Now().Add(5 * time.Second)
+		for time.Now().Before(deadline) && x.pending.Load() > 0 {
+			if updateCallParked(allStacks()) {
+				x.tracef("update call parked on the update channel")
+				return
+			}
+			time.Sleep(3 * time.Millisecond)
+		}
+		x.tracef("update call not seen parked (pending=%d)", x.pending.Load())
 	case "settle":
 		if x.isParked {
 			return
@@ -1115,6 +1209,49 @@ func (x *l2Run) waitStarted(d time.Duration) bool {
 		time.Sleep(5 * time.Millisecond)
 	}
 	return false
+}
+
+// updateCallParked reports whether a goroutine of the dump sits in the select
+// of Rescan.Update.
+func updateCallParked(dump string) bool {
+	for _, blk := range strings.Split(dump, "\n\n") {
+		blk = strings.TrimSpace(blk)
+		if !strings.Contains(blk, "neutrino.(*Rescan).Update") {
+			continue
+		}
+		if m := reGoHeader.FindStringSubmatch(blk); m != nil && strings.HasPrefix(m[2], "select") {
+			return true
+		}
+	}
+	return false
+}
+
+// noteStale measures, when an Update of the l2-stale-rewind family is handed
+// to Rescan.Update, whether the block the caller holds is still known to the
+// client's header store and how the rewind height relates to the fork point.
+func (x *l2Run) noteStale(u *UpdSpec) {
+	curHash, curH, have, _, _ := x.lg.tracker()
+	if !have {
+		return
+	}
+	n := x.w.G.ByHash[curHash]
+	depth := 0
+	for n != nil {
+		if _, _, err := x.w.Svc.BlockHeaders.FetchHeader(&n.Hash); err == nil {
+			break
+		}
+		n = n.Parent
+		depth++
+	}
+	if n == nil || depth == 0 {
+		x.tracef("update#%d sent with the caller's block on the client's best chain", u.ID)
+		return
+	}
+	x.staleSent++
+	if int32(u.Rewind) > n.Height && int32(u.Rewind) < curH {
+		x.staleShape++
+	}
+	x.tracef("update#%d sent with the caller at %d off the client's best chain (fork %d, %d stale blocks, rewind %d)", u.ID, curH, n.Height, depth, u.Rewind)
 }
 
 // rescanGoroutine finds the goroutine running rescanState.rescan in a dump.
@@ -1462,6 +1599,11 @@ func L2Scenario(seed int64, k int, res *l2.Result) {
 	res.Count("l2_requests_dropped_cfilter_batch", int64(x.drops.count("cfbatch")))
 	res.Count("l2_requests_dropped_getdata", int64(x.drops.count("block")))
 	res.Count("l2_net_events_logged", w.Log.Len())
+	if pl.Family == L2Stale {
+		res.Count("l2_stale_rewind_scenarios", 1)
+		res.Count("l2_stale_rewind_updates_sent_while_callers_block_off_best_chain", int64(x.staleSent))
+		res.Count("l2_stale_rewind_fork_below_rewind_below_caller", int64(x.staleShape))
+	}
 	if st.MaxWorlds > 1 {
 		res.Count("l2_scenarios_with_update_concurrent_to_callbacks", 1)
 	}
